@@ -6,6 +6,7 @@ INVARIANT OnboardSafe
 INVARIANT SeedFresh
 INVARIANT UnlockSafe
 INVARIANT PinPolicy
+INVARIANT PinHeld
 INVARIANT Carried
 INVARIANT PubkeysWritten
 INVARIANT EmitB
